@@ -235,10 +235,66 @@ def check_invariants(res, rb, trace, self_addrs):
         last[k] = t
 
 
+def patch_everywhere(name, value):
+    """a configured constant, replaced in every loaded module of the package that holds a binding of it"""
+    import sys
+    saved = []
+    for mn, m in list(sys.modules.items()):
+        if mn.startswith("skepticoin") and m is not None and hasattr(m, name):
+            saved.append((m, getattr(m, name)))
+            setattr(m, name, value)
+    return saved
+
+
+def give_up(ctx, res):
+    """the configured number of failures, made small: one outgoing address whose every attempt ends without a greeting,
+    the clock moved past the longest back-off each time.  The harness counts the failures itself (not the node's
+    counter): attempt number n is made after n - 1 consecutive failures, so more than limit + 1 attempts is a retry
+    beyond the configured number of failures."""
+    rng = ctx.rng
+    for limit in (2, 4, 7)[:ctx.scale(2, 3)]:
+        saved = patch_everywhere("MAX_CONNECTION_ATTEMPTS", limit)
+        try:
+            rb = RealBook([(HOSTS[0], PORTS[0])])
+            ops = ["p maxConnectionAttempts %d" % limit, "book new", "book add %s %d" % (HOSTS[0], PORTS[0])]
+            impl = ["ok"] * 3
+            k = (HOSTS[0], PORTS[0], OUTGOING)
+            t, failures, trace = 1000, 0, []
+            for _ in range(limit + 8):
+                t += 1800 + rng.choice([0, 1, 60])
+                apply_event(rb, ("step", t), ops, impl)
+                trace.append("step %d" % t)
+                if k in rb.nm.connected_peers:
+                    apply_event(rb, ("close", k), ops, impl)
+                    failures += 1
+                    trace.append("closed without a greeting (%d)" % failures)
+                ops.append("book digest")
+                impl.append(rb.digest())
+                res.case(("giveup", limit, impl[-1]), nontrivial=True)
+            res.count("give_up_scenarios")
+            if rb.errors:
+                res.violations.append({"kind": "an exception escaped a network-manager operation: %s" % rb.errors[0],
+                                       "trace": trace[-8:]})
+            if len(rb.attempts) > limit + 1:
+                res.violations.append({"kind": "a peer whose attempts all ended without a greeting was dialled %d times with the "
+                                               "configured number of failures set to %d: it is retried beyond that number"
+                                               % (len(rb.attempts), limit),
+                                       "configured_failures": limit, "attempts": [a[1] for a in rb.attempts], "trace": trace[-10:]})
+            rb.close()
+            ops.append("p maxConnectionAttempts 2880")
+            impl.append("ok")
+            model = ctx.driver.ask(ops)
+            kit.compare(res, ops, impl, model)
+        finally:
+            for m, v in saved:
+                setattr(m, "MAX_CONNECTION_ATTEMPTS", v)
+
+
 def run(ctx):
     res = kit.Result()
     rng = ctx.rng
     kit.setup_env()
+    give_up(ctx, res)
     # ---- exhaustive short sequences (thorough) / sampled (quick) over two hosts x two ports
     alphabet = []
     for h in HOSTS[:1]:
